@@ -12,8 +12,8 @@ import (
 	"unicode/utf8"
 )
 
-var keyAlpha = []string{"a", "b", "c", "k", "item", "-x", "-id", "#text", "ns:a", "A", "a-b", "_seq", "list", "d"}
-var plainKeys = []string{"a", "b", "c", "k", "item", "d", "list"}
+var keyAlpha = []string{"a", "b", "c", "k", "item", "-x", "-id", "#text", "ns:a", "A", "a-b", "_seq", "list", "d", "2", "0"}
+var plainKeys = []string{"a", "b", "c", "k", "item", "d", "list", "2"}
 var strAlpha = []string{"", "x", "y", "hello", "1", "true", "a b", "3.5", "*", "!", ":", "a:b", "x<y", "R&D", "\"q\"", "it's", "]]>", "&amp;", "&#x41;", "\\", "{", "}", " pad ", "é", "日本"}
 var hostileStr = []string{"&", "<", ">", "\"", "'", "&amp;", "&lt;", "&#x41;", "&#65;", "]]>", "<![CDATA[", "\\", "\\u003c", "\\u003e", "\\u0026", "{", "}", "a", "b", " ", "\t", "\n", "é", "x", "&amp;amp;", "--", "?>", "<!--"}
 
